@@ -297,7 +297,7 @@ def run(pid, tier):
     res = common.Result(pid, tier)
     res.trusted = TRUSTED
     res.assumptions = ['only CPython 3.12.1 exists in the sandbox: the version-conditional arms of the printers are not exercised', 'the reference parser is validated against ast.parse only on printed and perturbed texts of the operator core']
-    common.standard_proof_phase(res, ['prectable', 'pipeline'], 'Properties/C02.v', model_targets=['Model/SyntaxTable.vo', 'Model/IntLit.vo'])
+    common.standard_proof_phase(res, ['prectable', 'pipeline', 'tokenrules'], 'Properties/C02.v', model_targets=['Model/SyntaxTable.vo', 'Model/IntLit.vo'])
     r = common.rng(pid)
     eff = tier if (not res.broken or tier == 'thorough') else 'search'
     with common.coq_lock():
